@@ -382,7 +382,7 @@ class R:
         sv = self.sv
         return [
             "#![allow(unused, deprecated, clippy::all)]",
-            f"use {sv}::cw_std::{{Addr, Binary, Coin, CustomMsg, CustomQuery, Empty, Reply, Response, StdError, StdResult, SubMsgResult, Uint128}};",
+            f"use {sv}::cw_std::{{Addr, Binary, Coin, CosmosMsg, CustomMsg, CustomQuery, Empty, Reply, Response, StdError, StdResult, SubMsgResult, Uint128}};",
             f"use {sv}::ctx::{{ExecCtx, InstantiateCtx, MigrateCtx, QueryCtx, ReplyCtx, SudoCtx}};",
             "use svmon::prelude::*;",
         ]
@@ -427,7 +427,7 @@ class R:
         return text
 
     SHADOW_MARK = "SHADOWTY_"
-    PRELUDE_PATHS = {n: "cw_std" for n in ["Addr", "Binary", "Coin", "CustomMsg", "CustomQuery", "Empty", "Reply", "Response", "StdError",
+    PRELUDE_PATHS = {n: "cw_std" for n in ["Addr", "Binary", "Coin", "CosmosMsg", "CustomMsg", "CustomQuery", "Empty", "Reply", "Response", "StdError",
                                            "StdResult", "SubMsgResult", "Uint128"]}
     PRELUDE_PATHS.update({n: "ctx" for n in ["ExecCtx", "InstantiateCtx", "MigrateCtx", "QueryCtx", "ReplyCtx", "SudoCtx"]})
 
@@ -459,6 +459,7 @@ class R:
             conc = {g["name"]: g["concrete"] for g in self.p.get("generics", [])}
         else:
             conc = dict(part.get("assoc_concrete", []))
+            conc.update(part.get("special_params", {}))
         return "::<" + ", ".join(conc[n] for n in names) + ">"
 
     def msg_path(self, part, kind):
